@@ -341,15 +341,17 @@ def push(run):
                     if smt.prove(list(path.pc), Vi == 0)["verdict"] == "proved":
                         ok1, why = False, "emits weights for a state with backward weight zero"
                 continue
-            good = (len(m.I) == 1 and len(m.F) == 1 and len(m.arcs) == len(arcs))
+            # arcs into dead targets (V[j] = 0 on this path) may be dropped: their pushed weight is zero anyway
+            kept = [(a, j, w) for (a, j, w) in arcs if smt.prove(list(path.pc), Vf(j.e) == 0)["verdict"] != "proved"]
+            good = (len(m.I) == 1 and len(m.F) == 1 and len(m.arcs) in (len(kept), len(arcs)))
             if good:
                 g = [I.zexpr(m.I[0][0]) == i.e, I.to_real(m.I[0][1]) == startf(i.e) * Vi,
                      I.zexpr(m.F[0][0]) == i.e, Vi * I.to_real(m.F[0][1]) == stopf(i.e)]
-                for (a, j, w), rec in zip(arcs, m.arcs):
+                for (a, j, w), rec in zip(kept if len(m.arcs) == len(kept) else arcs, m.arcs):
                     g += [I.zexpr(rec[0]) == i.e, I.zexpr(rec[1]) == a.e, I.zexpr(rec[2]) == j.e, Vi * I.to_real(rec[3]) == w.e * Vf(j.e)]
                 good = smt.prove(list(path.pc), z3.And(*g))["verdict"] == "proved"
             if not good:
-                ok1, why = False, f"degree {len(arcs)}: pushed weights are not start*V[i], V[i]^-1*stop, V[i]^-1*w*V[j]"
+                ok1, why = False, f"degree {len(arcs)}: pushed weights are not start*V[i], V[i]^-1*stop, V[i]^-1*w*V[j] (arcs into dead states may be dropped)"
                 continue
             # stochasticity from the backward equation V[i] = stop[i] + sum_k w_k V[j_k]
             beq = Vi == stopf(i.e) + sum((w.e * Vf(j.e) for (_, j, w) in arcs), z3.RealVal(0))
